@@ -156,8 +156,11 @@ def describe(e):
 def model_runs(c, th):
     c.tlc_mc("ConfigFlow", "ConfigFlow_wf.cfg", count=False,
              name="well-formedness of the relation: every switch has its source entry, no target carries two leaves")
-    r = c.tlc_mc("ConfigFlow", "ConfigFlow_mc_big.cfg" if th else "ConfigFlow_mc.cfg", timeout=1500, workers=6, coverage=th,
-             name="abstract run: every model leaf in every value class, %d changes, both upstream lists" % (3 if th else 2))
+    r = c.tlc_mc("ConfigFlow", "ConfigFlow_mc.cfg", timeout=1500, workers=6, coverage=th,
+                 name="abstract run: every model leaf in every value class, 2 changes, both upstream lists")
+    if th:
+        c.tlc_mc("ConfigFlow", "ConfigFlow_mc_big.cfg", timeout=1500, workers=8,
+                 name="abstract run: 3 changes among the switches, the leaves they gate and the leaves with two consumers")
     c.cov["exhaustive"] = True
     if th:
         z = [x for x in r.zero_coverage() if x[0] in ("SetLeaf", "SetLists", "Next")]
